@@ -552,6 +552,15 @@ func (obj *Package) Undefine(name string) {
 	name = strings.ToLower(name)
 	obj.mu.Lock()
 	if obj.funcs != nil {
+		if fi := obj.funcs[name]; fi != nil && fi.Pkg == obj {
+			for _, u := range obj.Users {
+				u.mu.Lock()
+				if u.funcs[name] == fi {
+					delete(u.funcs, name)
+				}
+				u.mu.Unlock()
+			}
+		}
 		delete(obj.funcs, name)
 	}
 	obj.mu.Unlock()
